@@ -192,7 +192,40 @@ func runMut(raw Sx) (Sx, Sx) {
 	if b, d := waitOrDump(&mwg, 5*time.Second, "sync.RWMutex", "(*Container)", "(*WebService)"); b {
 		blocked, lastDump = 1, d
 	}
+	// a container that serves on http.DefaultServeMux refuses Remove (its mux cannot be rebuilt); the refusal must
+	// leave the container usable: no lock may stay behind
+	if blocked == 0 {
+		n := atomic.AddInt64(&mutSeq, 1)
+		dc := restful.NewContainer()
+		if router == 1 {
+			dc.Router(restful.RouterJSR311{})
+		}
+		dc.ServeMux = http.DefaultServeMux
+		wd := new(restful.WebService)
+		wd.Path("/dm" + itoa(int(n)))
+		wd.Route(wd.GET("/x").To(say("DM")))
+		guard(func() {
+			dc.Add(wd)
+			dc.Remove(wd) // refused
+		})
+		var dwg sync.WaitGroup
+		dwg.Add(1)
+		go func() {
+			defer dwg.Done()
+			hr, _ := http.NewRequest("GET", "http://h/dm"+itoa(int(n))+"/x", nil)
+			rec := httptest.NewRecorder()
+			guard(func() { dc.Dispatch(rec, hr) })
+			if rec.Code != 200 || rec.Body.String() != "DM" {
+				atomic.AddInt64(&wrongStable, 1)
+			}
+		}()
+		if b, d := waitOrDump(&dwg, 5*time.Second, "sync.RWMutex", "(*Container)"); b {
+			blocked, lastDump = 1, d
+		}
+	}
 	return L(Ls{}, router, entry, servers, iters), L(int(wrongStable), int(wrongChanging), int(panics), blocked)
 }
+
+var mutSeq int64
 
 func init() { domains["mut"] = domain{gen: genMut, run: runMut} }
